@@ -51,6 +51,10 @@ func isKWany(s string, kws ...string) bool {
 var c02Points = map[string]bool{
 	"cmd.after_handler": true, "cmd.after_log": true,
 	"aof.write.begin": true, "aof.write.after_select": true, "aof.write.after_cmd": true, "aof.write.after_sync": true,
+	// the points of a log rewrite at which the files on disk are, on their own, a complete description of the
+	// dataset (the windows in between are C09's, with its listed findings)
+	"rewrite.begin": true, "preamble.after_state": true, "aof.trunc.after_truncate": true, "aof.trunc.after_select": true,
+	"aof.trunc.after_sync": true, "rewrite.end": true,
 }
 
 // pRecord is what one instrumented run of a workload produced.
@@ -143,6 +147,10 @@ func checkC02(ctx *Ctx) {
 	if ctx.Shard == 2 || ctx.NShards == 1 {
 		ctx.SetCurrent("C02 log-order lane")
 		c02LogOrder(ctx)
+	}
+	if ctx.Shard == 3 || ctx.NShards == 1 {
+		ctx.SetCurrent("C02 database-change lane")
+		c02DBChange(ctx)
 	}
 	nw := ctx.N(18, 96)
 	policies := []string{"always", "everysec", "no"}
@@ -493,6 +501,103 @@ func c02LogOrder(ctx *Ctx) {
 					What: fmt.Sprintf("A = %s was held between its handler and its log record while B = %s ran (B finished before A was released: %v); after a clean stop the dataset restored from the log differs from the live dataset: %v %s",
 						Step{Argv: pr[0]}.String(), Step{Argv: pr[1]}.String(), bFirst, rerr, model.DiffCanon(live, d)),
 					Case: map[string]interface{}{"a": pr[0], "b": pr[1], "policy": policy}, Key: fmt.Sprintf("c02|log-order|%d", pi)})
+			}
+		}
+	}
+}
+
+// c02DBChange: a write is held between its handler and its log record while another actor changes the
+// database its caller has selected (SWAPDB from another connection moves the writer's connection; another
+// goroutine calls SelectDB on the shared embedded instance). The write went into the database the caller
+// had selected when the command ran, and that is where a restart must find it.
+func c02DBChange(ctx *Ctx) {
+	for vi, variant := range []string{"tcp-swapdb", "embedded-selectdb", "tcp-swapdb-back"} {
+		for _, policy := range []string{"always", "no"} {
+			root := mkScratch("c02db")
+			dir := filepath.Join(root, "data")
+			_ = os.MkdirAll(dir, 0o755)
+			clk := NewVClock()
+			run, err := newPRunner(dir, policy, false, false, clk)
+			if err != nil {
+				ctx.Broken("C02 database change: " + err.Error())
+				os.RemoveAll(root)
+				return
+			}
+			in := run.in
+			var armed, held atomic.Bool
+			release := make(chan struct{})
+			var writerG atomic.Int64
+			setHook(func(name string, args ...interface{}) {
+				if name == "cmd.after_handler" && armed.Load() && (writerG.Load() == 0 || goid() == writerG.Load()) && armed.CompareAndSwap(true, false) {
+					held.Store(true)
+					select {
+					case <-release:
+					case <-time.After(10 * time.Second):
+					}
+				}
+			})
+			aDone := make(chan struct{})
+			var what string
+			if variant == "embedded-selectdb" {
+				_ = in.S.SelectDB(3)
+				in.Do("SET", "before", "v")
+				armed.Store(true)
+				go func() {
+					writerG.Store(goid())
+					in.Do("RPUSH", "held-write", "x")
+					close(aDone)
+				}()
+				waitFor(10*time.Second, func() bool { return held.Load() })
+				_ = in.S.SelectDB(7)
+				what = "another goroutine called SelectDB(7) on the embedded instance"
+			} else {
+				if _, err := run.exec(pOp{Caller: "t1", Argv: []string{"SELECT", "3"}}); err != nil {
+					ctx.Inconclusive("C02 database change: " + err.Error())
+					run.close()
+					os.RemoveAll(root)
+					continue
+				}
+				run.exec(pOp{Caller: "t1", Argv: []string{"SET", "before", "v"}})
+				run.exec(pOp{Caller: "t2", Argv: []string{"PING"}})
+				armed.Store(true)
+				go func() {
+					run.exec(pOp{Caller: "t1", Argv: []string{"RPUSH", "held-write", "x"}})
+					close(aDone)
+				}()
+				waitFor(10*time.Second, func() bool { return held.Load() })
+				run.exec(pOp{Caller: "t2", Argv: []string{"SWAPDB", "3", "7"}})
+				what = "another connection ran SWAPDB 3 7"
+				if variant == "tcp-swapdb-back" {
+					run.exec(pOp{Caller: "t2", Argv: []string{"SWAPDB", "7", "12"}})
+					what = "another connection ran SWAPDB 3 7 and SWAPDB 7 12"
+				}
+			}
+			ok := held.Load()
+			close(release)
+			<-aDone
+			setHook(nil)
+			// one more acknowledged write by the same caller, in whatever database it has selected now
+			if variant == "embedded-selectdb" {
+				in.Do("SET", "after", "v")
+			} else {
+				run.exec(pOp{Caller: "t1", Argv: []string{"SET", "after", "v"}})
+			}
+			ctx.Eval(1)
+			ctx.Class(fmt.Sprintf("db-change|%s|%s", variant, policy))
+			live := run.canon()
+			run.close()
+			if !ok {
+				ctx.Inconclusive("C02 database change: the hook point was not reached")
+				os.RemoveAll(root)
+				continue
+			}
+			d, rdir, rerr := restoreDump(dir, policy, clk, true, false, nil)
+			os.RemoveAll(rdir)
+			os.RemoveAll(root)
+			if rerr != nil || !canonEq(live, d) {
+				ctx.Violate(Violation{Kind: "placement", Lane: "aof-db-change",
+					What: fmt.Sprintf("RPUSH held-write x (caller on database 3) was held between its handler and its log record while %s; after a clean stop the dataset restored from the log differs from the live dataset: %v %s", what, rerr, model.DiffCanon(live, d)),
+					Case: map[string]interface{}{"variant": variant, "policy": policy}, Key: fmt.Sprintf("c02|db-change|%d", vi)})
 			}
 		}
 	}
